@@ -512,7 +512,7 @@ def random_qspec(rng, napp=None, avoid=()):
     if "cid-short" in avoid:
         s.c_scid_len = max(s.c_scid_len, 4)
         s.s_scid_len = max(s.s_scid_len, 4)
-    s.odcid_len = rng.choice([8, 8, 12, 20, rng.randrange(8, 21)])
+    s.odcid_len = rng.choice([8, 8, 12, 20, rng.randrange(8, 21), rng.randrange(0, 21), rng.choice([0, 1, 7])])      # RFC 9000 7.2 demands >= 8 of clients; the properties quantify over 0..20
     s.retry = rng.random() < 0.2
     s.pn_len_mode = rng.choice(["min", "rand", "4"])
     s.pn_gap = rng.choice([0, 0, 3, 300, 70000])
